@@ -58,7 +58,9 @@ def run(ctx):
     nw = prog.fn_named("new_with_config", self_ty=ctx_ty)
     # both functions with the private method factory spliced in (it may also be written out in place)
     from . import roles as _roles
-    dyn_inherent = {k for k, f in prog.fns.items() if ((f.get("impl") or {}).get("self") or "").startswith("(dyn ") and not (f.get("impl") or {}).get("trait")}
+    dyn_inherent = {k for k, f in prog.fns.items() if (((f.get("impl") or {}).get("self") or "").startswith("(dyn ")
+                                                        or "dyn context::Method" in ((f.get("impl") or {}).get("self") or ""))
+                    and not (f.get("impl") or {}).get("trait")}
     b = _roles.ib(prog, ue, allow=dyn_inherent)
     nb = _roles.ib(prog, nw, allow=dyn_inherent)
     struct_ctors = {}
